@@ -14,7 +14,16 @@ P2 == Code(32768, <<251, 237, 87, 221, 221, 0, 1, 2, 0, 237, 176, 24, 243>>)
 \* IM 2 ; EI ; HALT ; DJNZ -1
 P3 == Code(32768, <<237, 94, 251, 118, 16, 253>>)
 
-MCPrograms == { <<Regs(32768, t, iff, 1, 65000), P1 \o Handlers>> : t \in {0, Frame - 9, Frame - 3, TMod - 5}, iff \in {0, 1} }
-         \cup { <<Regs(32768, t, 1, 1, 65000), P2 \o Handlers>> : t \in {0, Frame - 20, Frame - 6} }
-         \cup { <<Regs(32768, t, 0, 0, 65000), P3 \o Handlers>> : t \in {Frame - 30, Frame - 12} }
+\* AY: select 31 (none) ; IN (255) ; store ; select 3 ; write 0x55 ; read back ; store ; border ; page with lock ; page again
+\*   LD BC,FFFD / LD A,1F / OUT (C),A / IN A,(C) / LD (9100),A / LD A,3 / OUT (C),A / LD B,BF / LD A,55 / OUT (C),A /
+\*   LD B,FF / IN A,(C) / LD (9101),A / LD A,5 / OUT (FE),A / LD BC,7FFD / LD A,21 / OUT (C),A / LD A,3 / OUT (C),A / JR $
+P4 == Code(32768, <<1, 253, 255, 62, 31, 237, 121, 237, 120, 50, 0, 145, 62, 3, 237, 121, 6, 191, 62, 85, 237, 121,
+                    6, 255, 237, 120, 50, 1, 145, 62, 5, 211, 254, 1, 253, 127, 62, 33, 237, 121, 62, 3, 237, 121, 24, 254>>)
+
+MCPrograms == { <<Regs(32768, t, iff, 1, 65000), P1 \o Handlers, m>> : t \in {0, Frame - 9, Frame - 3, TMod - 5}, iff \in {0, 1}, m \in {0, 1} }
+         \cup { <<Regs(32768, t, 1, 1, 65000), P2 \o Handlers, 0>> : t \in {0, Frame - 20, Frame - 6} }
+         \cup { <<Regs(32768, t, 0, 0, 65000), P3 \o Handlers, 1>> : t \in {Frame - 30, Frame - 12} }
+         \cup { <<Regs(32768, t, 0, 1, 65000), P4 \o Handlers, 1>> : t \in {0, Frame - 14} }
+\* the same I/O program on a 48K machine: with AyLostOn48K the resumed run reads 0 back - Transparent must FAIL
+NegPrograms == { <<Regs(32768, 0, 0, 1, 65000), P4 \o Handlers, 0>> }
 =============================================================================
